@@ -122,10 +122,11 @@ func resp4str(r *dhcpv4.DHCPv4) string {
 }
 
 func execDg4(c *ctx, f []string) {
-	c.emit(strings.Join(f, " "), dg4Result(f))
+	c.emit(strings.Join(f, " "), dg4Result(f, true))
 }
 
-func dg4Result(f []string) string {
+// seq: one datagram at a time, on a listener that lives across datagrams (listeners.go)
+func dg4Result(f []string, seq bool) string {
 	bound, oob := atoi(f[1]), atoi(f[2])
 	dg := unhx(f[4])
 	log := &invLog{}
@@ -146,7 +147,12 @@ func dg4Result(f []string) string {
 			if len(f) > 6 {
 				src = &net.UDPAddr{IP: net.IP(unhx(f[5])), Port: atoi(f[6])}
 			}
-			caps := server.VerifHandle4(hs, bound, dg, oob, src)
+			var caps []server.Captured4
+			if seq {
+				caps = handleOn4(hs, bound, dg, oob, src)
+			} else {
+				caps = server.VerifHandle4(hs, bound, dg, oob, src)
+			}
 			if len(caps) == 0 {
 				return "drop"
 			}
@@ -319,7 +325,7 @@ func execDg6(c *ctx, f []string) {
 	}
 	res := watchdog(5*time.Second, func() string {
 		return guard(func() string {
-			caps := server.VerifHandle6(hs, bound, dg, oob, &net.UDPAddr{IP: src, Port: port})
+			caps := handleOn6(hs, bound, dg, oob, &net.UDPAddr{IP: src, Port: port})
 			if len(caps) == 0 {
 				return "drop"
 			}
